@@ -93,3 +93,30 @@ Proof.
   intros H Hd. apply sublists_filter; [exact H|].
   intros a Ha. rewrite disjointb_spec in Hd. apply negb_true_iff, memb_false. apply Hd. exact Ha.
 Qed.
+
+(* ---- sharding an enumeration by the kind of the first node pair (keeps each kernel computation short) ---- *)
+Lemma all_lists_cons {A} (alph : list A) m l :
+  In l (all_lists alph (S m)) -> exists k t, l = k :: t /\ In k alph /\ In t (all_lists alph m).
+Proof.
+  simpl. rewrite in_flat_map. intros [k [Hk H]]. apply in_map_iff in H. destruct H as [t [<- Ht]].
+  exists k, t. tauto.
+Qed.
+
+Definition shard {A} (alph : list A) (m : nat) (test : list A -> bool) (k : A) : list (list A) :=
+  filter test (map (cons k) (all_lists alph m)).
+
+Lemma shard_cover {A} (alph : list A) m test l :
+  In l (filter test (all_lists alph (S m))) -> exists k, In k alph /\ In l (shard alph m test k).
+Proof.
+  rewrite filter_In. intros [H Ht]. apply all_lists_cons in H. destruct H as [k [t [-> [Hk Hin]]]].
+  exists k. split; [exact Hk|]. unfold shard. rewrite filter_In. split; [apply in_map; exact Hin|exact Ht].
+Qed.
+
+(* plain DAGs *)
+Definition dag_kinds : list pkind := [KNone; KFwd; KBwd].
+Definition in_dag (n : nat) (ks : list pkind) : Prop :=
+  length ks = length (node_pairs n) /\ Forall (fun k => In k dag_kinds) ks /\ acyclicb (graph_of n ks) = true.
+Definition enum_dag (n : nat) : list (list pkind) :=
+  filter (fun ks => acyclicb (graph_of n ks)) (all_lists dag_kinds (length (node_pairs n))).
+Lemma enum_dag_spec n ks : In ks (enum_dag n) <-> in_dag n ks.
+Proof. unfold enum_dag, in_dag. rewrite filter_In, all_lists_spec. tauto. Qed.
